@@ -139,6 +139,10 @@ template<typename N> static std::string multi(const std::vector<std::string>& t)
   if (t[3] == "3x5" && t[2] == "long") return sbx ? index2<true, long, 3, 5, N>(i, j) : index2<false, long, 3, 5, N>(i, j);
   if (t[3] == "3x5" && t[2] == "char") return sbx ? index2<true, char, 3, 5, N>(i, j) : index2<false, char, 3, 5, N>(i, j);
   if (t[3] == "4x1" && t[2] == "ptr") return sbx ? index2<true, int*, 4, 1, N>(i, j) : index2<false, int*, 4, 1, N>(i, j);
+  if (t[3] == "3x5" && t[2] == "short") return sbx ? index2<true, short, 3, 5, N>(i, j) : index2<false, short, 3, 5, N>(i, j);
+  if (t[3] == "4x1" && t[2] == "short") return sbx ? index2<true, short, 4, 1, N>(i, j) : index2<false, short, 4, 1, N>(i, j);
+  if (t[3] == "2x3" && t[2] == "int") return sbx ? index2<true, int, 2, 3, N>(i, j) : index2<false, int, 2, 3, N>(i, j);
+  if (t[3] == "4x1" && t[2] == "uint") return sbx ? index2<true, unsigned, 4, 1, N>(i, j) : index2<false, unsigned, 4, 1, N>(i, j);
   if (t[3] == "2x3x4" && t[2] == "long" && t.size() == 8) {
     i128 k = parse_dec(t[7]);
     return sbx ? index3<true, long, 2, 3, 4, N>(i, j, k) : index3<false, long, 2, 3, 4, N>(i, j, k);
